@@ -59,10 +59,12 @@ class MCPEnv(RL4COEnvBase):
 
         # Update set selection status
         chosen = td["chosen"].clone()  # (batch_size, n_sets)
-        chosen[torch.arange(batch_size).to(td.device), selected] = True
+        # an instance that has its quota keeps being stepped while batch-mates are running: it selects nothing more
+        still_choosing = ~td["done"].reshape(batch_size, -1)[:, 0]
+        chosen[torch.arange(batch_size).to(td.device), selected] |= still_choosing
 
         # We are done if we choose enough sets
-        done = td["i"] >= (td["n_sets_to_choose"] - 1)
+        done = td["i"].reshape(batch_size, 1) >= (td["n_sets_to_choose"] - 1)
 
         # The reward is calculated outside via get_reward for efficiency, so we set it to -inf here
         reward = torch.ones_like(done) * float("-inf")
